@@ -211,8 +211,8 @@ def fan_event(ev):
             return [th, e]
         if e in ("lock", "unlock") and ev[2] == "tc":
             return [th, e]
-        if e == "signal" and ev[2] == "tc":
-            return [th, "signal"]
+        if e in ("signal", "broadcast") and ev[2] == "tc":
+            return [th, "signal"]       # the dispatcher is the only waiter on threadcount_cond: the two are the same
         return None
     if th in ("G", "Z", "-"):
         # watchdog / signals thread / clock: outside the Fan model unless they touch the protocol objects
